@@ -821,6 +821,19 @@ func (c *Compiler) writeNode(node, parent *node, recv, v, vsrc string, depth int
 			c.wl("return")
 		default:
 			nv := "x" + strconv.Itoa(depth)
+			if mode == modeSet && node.ptr {
+				// The map is reached through a pointer: allocate it before the store.
+				c.wl("if *", v, " == nil { *", v, " = make(", c.fmtT(node), ") }")
+			}
+			// In set mode a nil map held as entry of this map is allocated (and stored) before the code below it writes to it.
+			allocInner := func(nvsrc string) {
+				if mode == modeSet && node.mapv.typ == typeMap && !node.mapv.ptr {
+					c.wl("if ", nv, " == nil {")
+					c.wl(nv, " = make(", c.fmtT(node.mapv), ")")
+					c.wl(nvsrc, " = ", nv)
+					c.wl("}")
+				}
+			}
 			if node.mapk.typn == "string" {
 				// Key is string, simple case.
 				key := c.fmtP(node.mapk, "path["+depths+"]", depth+1)
@@ -834,6 +847,7 @@ func (c *Compiler) writeNode(node, parent *node, recv, v, vsrc string, depth int
 				if mode == modeSet {
 					nvsrc = c.fmtV(node, v) + "[" + key + "]"
 				}
+				allocInner(nvsrc)
 				err := c.writeNode(node.mapv, node, recv, nv, nvsrc, depth+1, mode)
 				if err != nil {
 					return err
@@ -860,6 +874,7 @@ func (c *Compiler) writeNode(node, parent *node, recv, v, vsrc string, depth int
 				if mode == modeSet {
 					nvsrc = c.fmtV(node, v) + "[" + c.fmtP(node.mapk, "k", depth+1) + "]"
 				}
+				allocInner(nvsrc)
 				err = c.writeNode(node.mapv, node, recv, nv, nvsrc, depth+1, mode)
 				if mode == modeSet {
 					c.wl(c.fmtV(node, v), "[", c.fmtP(node.mapk, "k", depth+1), "] = ", nv)
